@@ -54,9 +54,13 @@ Fixpoint bad_rows_aux {A} (f : A -> res) (i : nat) (l : list A) : list (nat * re
 Definition bad_rows {A} (f : A -> res) (l : list A) : list (nat * res) := bad_rows_aux f 0 l.
 
 (** direct call of authenticateUser *)
+(** [ens_of ok]: EnsureUserAndMailboxes in the scripted world: the row of the pair it
+    is called with, or an error (disabled account) *)
+Definition ens_of (ok : bool) : ensure_fn := if ok then ensure_ok else ensure_fails.
+
 Record dcase := mk_dcase { dc_d : str; dc_u : str; dc_p : str; dc_b : outcome; dc_ens : bool; dc_init : bool; dc_obs : auth_out }.
 Definition dcase_eval (c : dcase) : res :=
-  let m := authenticate_user (dc_d c) (dc_u c) (dc_p c) (dc_b c) (dc_ens c) (dc_init c) in
+  let m := authenticate_user (dc_d c) (dc_u c) (dc_p c) (dc_b c) (ens_of (dc_ens c)) (dc_init c) in
   (out_eqb (dc_b c) m (dc_obs c),
    imap_spec_b (dc_d c) (dc_u c) (dc_p c) (accepted (dc_b c)) (dc_obs c),
    domain_code (dc_d c) (dc_u c) (dc_p c)).
@@ -85,7 +89,7 @@ Definition no_tls_b (tls : bool) (obs : auth_out) : bool :=
 Record wcase := mk_wcase { wc_tls : bool; wc_d : str; wc_tag : str; wc_line : str; wc_b : outcome;
   wc_intended : option (astring_form * astring_form * str * str); wc_obs : auth_out }.
 Definition wcase_eval (c : wcase) : res :=
-  let m := run_creds (wc_d c) (login_creds false (wc_tls c) (wc_line c)) (wc_b c) true true in
+  let m := run_creds (wc_d c) (login_creds false (wc_tls c) (wc_line c)) (wc_b c) ensure_ok true in
   (out_eqb (wc_b c) m (wc_obs c)
    && match wc_intended c with
       | Some (fu, fp, u, p) => str_eqb (login_line (wc_tag c) fu fp u p) (wc_line c)
@@ -109,7 +113,7 @@ Definition wcase_eval (c : wcase) : res :=
 Record pcase := mk_pcase { pc_tls : bool; pc_d : str; pc_authzid : str; pc_data : str; pc_b : outcome;
   pc_intended : option (str * str); pc_obs : auth_out }.
 Definition pcase_eval (c : pcase) : res :=
-  let m := run_creds (pc_d c) (authplain_creds false (pc_tls c) (pc_data c)) (pc_b c) true true in
+  let m := run_creds (pc_d c) (authplain_creds false (pc_tls c) (pc_data c)) (pc_b c) ensure_ok true in
   (out_eqb (pc_b c) m (pc_obs c)
    && match pc_intended c with
       | Some (u, p) => str_eqb (b64_encode (pc_authzid c ++ NUL :: u ++ NUL :: p) ++ crlf) (pc_data c)
@@ -143,3 +147,16 @@ Definition scase_eval (c : scase) : res :=
    | Some (_, u, p) => domain_code (sc_domain c) u p
    | None => 0
    end).
+
+(** concurrent first logins of one new account (and a first login racing a first
+    delivery): the interleaving is not modelled; every session is judged by the
+    spec alone -- an OK session is bound to the users row of exactly its
+    verified address, anything else binds nothing *)
+Record rcase := mk_rcase { rc_d : str; rc_u : str; rc_reply : reply; rc_bound : option (str * str) }.
+Definition rcase_eval (c : rcase) : res :=
+  (true,
+   match rc_reply c with
+   | R_OK => match rc_bound c with Some row => store_of_b (address_of (rc_d c) (rc_u c)) row | None => false end
+   | _ => match rc_bound c with None => true | Some _ => false end
+   end,
+   0).
